@@ -215,7 +215,7 @@ def main(pid, tier="quick", seed=0, replay=None):
             seen_keys.add(w.get("key"))
             if len(seen_keys) > 60:
                 break
-            kf = [k for k in known if k.get("property") == pid and k.get("bounded") == b["name"] and (
+            kf = [k for k in known if k.get("bounded") == b["name"] and (
                 not k.get("witness_key") or k.get("witness_key") == w.get("key"))]
             if kf:
                 lines.append("KNOWN-FINDING: property=%s %s [%s]" % (pid, kf[0].get("what", ""), b["name"]))
